@@ -21,6 +21,8 @@ import (
 // jsonx.UnmarshalFromString -> json.Decoder + UseNumber into a []any) reads as
 // the JSON text of a list. Both ends must therefore agree on "one line of JSON
 // text" for every list length, the one-element list in particular.
+// Lengths 1..3: an empty (or nil) non-optional list member is refused by
+// mapping.Marshal on the client, so nothing is sent.
 //
 // encoding/json cannot run under the engine. In the symbolic world the two call
 // shapes this chain uses are replaced by a model of JSON list text:
